@@ -50,6 +50,10 @@ func UpdateList[T any](remoteWrite bool, existingData []T, newData []T, filterPa
 	// process update filter (with selectors and elements)
 	if filterPartial != nil {
 		if filterData, err := filterPartial.Data(); err == nil {
+			// a partial update with a selector needs an item with the data to be set
+			if len(newData) == 0 {
+				return existingData, false
+			}
 			newData, noErrors := copyToSelectedData(remoteWrite, existingData, filterData, &newData[0])
 			if !noErrors {
 				success = false
